@@ -9,6 +9,7 @@ import QrlewModel.Model.Injection
 import QrlewModel.Model.Filter
 import QrlewModel.Model.Clip
 import QrlewModel.Model.DpAgg
+import QrlewModel.Model.PupTree
 import QrlewModel.Model.Tau
 import QrlewModel.Model.Rel
 import QrlewModel.Model.Quote
@@ -379,6 +380,47 @@ def runDpAgg (c : Json) (aux : Json) : Option Json := do
   else pure (Json.mkObj [("agg_ok", Json.bool false), ("consts_ok", Json.bool constsOk),
     ("model", Json.arr (outs.map fun m => Json.arr #[toJson m.count, toJson m.sum, toJson m.mean, toJson m.var, toJson m.std]).toArray)])
 
+/-- trees of privacy-unit-tracking operators: `Qrlew.PupTree.eval` on the case's tables, rows rendered `unit|weight|c0|c1` and sorted -/
+partial def pupTreeOfJson? (j : Json) : Option PupTree.T := do
+  let tag ← (j.getArrVal? 0).toOption >>= fun t => t.getStr?.toOption
+  let n (i : Nat) : Option Nat := ((j.getArrVal? i).toOption >>= jInt?).map Int.toNat
+  let z (i : Nat) : Option Int := (j.getArrVal? i).toOption >>= jInt?
+  let b (i : Nat) : Option Bool := (j.getArrVal? i).toOption >>= fun x => x.getBool?.toOption
+  let t (i : Nat) : Option PupTree.T := (j.getArrVal? i).toOption >>= pupTreeOfJson?
+  match tag with
+  | "table" => do pure (.table (← n 1))
+  | "map" => do pure (.map (← n 1) (← z 2) (← n 3) (← z 4) (← t 5))
+  | "filter" => do pure (.filter (← n 1) (← z 2) (← t 3))
+  | "join" => do pure (.join (← n 1) (← n 2) (← n 3) (← n 4) (← t 5) (← t 6))
+  | "joinpub" => do pure (.joinPub (← n 1) (← n 2) (← b 3) (← t 4))
+  | "union" => do pure (.union (← b 1) (← t 2) (← t 3))
+  | "reduce" => do pure (.reduce (← n 1) (← n 2) (← b 3) (← t 4))
+  | _ => none
+
+def runPup (c : Json) : Option Json := do
+  let tree ← (c.getObjVal? "tree").toOption >>= pupTreeOfJson?
+  let cellOf (j : Json) : PupTree.Cell := jInt? j
+  let tracked (name : String) : Option (List (Nat × PupTree.Row)) := do
+    let rowsJ ← (c.getObjVal? name).toOption >>= fun a => a.getArr?.toOption
+    rowsJ.toList.mapM fun r => do
+      let u ← (r.getArrVal? 0).toOption >>= jInt?
+      let k ← (r.getArrVal? 1).toOption
+      let x ← (r.getArrVal? 2).toOption
+      pure (u.toNat, ((1 : Int), [cellOf k, cellOf x]))
+  let ta ← tracked "ta"
+  let tb ← tracked "tb"
+  let ppJ ← (c.getObjVal? "pp").toOption >>= fun a => a.getArr?.toOption
+  let pp ← ppJ.toList.mapM fun r => do
+    let k ← (r.getArrVal? 0).toOption
+    let w ← (r.getArrVal? 1).toOption
+    pure [cellOf k, cellOf w]
+  let env : PupTree.Env := { tracked := fun i => if i == 0 then ta else tb, pub := pp }
+  let showC (x : PupTree.Cell) : String := match x with | some v => toString v | none => "null"
+  let rows := (PupTree.eval env tree).map fun r =>
+    s!"{r.1}|{r.2.1}|{showC (PupTree.getC r.2.2 0)}|{showC (PupTree.getC r.2.2 1)}"
+  let sorted := rows.toArray.qsort (fun a b => a < b)
+  pure (Json.mkObj [("rows", Json.arr (sorted.map Json.str))])
+
 def runLimit (c : Json) : Option Json := do
   let k ← (c.getObjVal? "k").toOption >>= jInt?
   let nU ← (c.getObjVal? "n_units").toOption >>= jInt?
@@ -560,6 +602,7 @@ def handle (line : String) : Json :=
       | "namer" => runNamer c ((j.getObjVal? "aux").toOption.getD Json.null)
       | "clip" => runClip c ((j.getObjVal? "aux").toOption.getD Json.null)
       | "dpagg" => runDpAgg c ((j.getObjVal? "aux").toOption.getD Json.null)
+      | "pup" => runPup c
       | "dpevent" => runDpEvent c
       | "dpquery" => runDpQuery ((j.getObjVal? "aux").toOption.getD Json.null)
       | "rules" => runRules ((j.getObjVal? "aux").toOption.getD Json.null)
